@@ -11,6 +11,7 @@
   every bit depth × colour type; truncations and byte corruptions; every single-token JCF corruption) under ASan/UBSan.
 -/
 import M4riProofs.Io
+import M4riProofs.GenTieIo
 namespace M4ri.Props.C18
 open M4ri M4ri.Io
 
@@ -34,5 +35,13 @@ theorem png_accepted_header_fits_buffer (h : PngHdr) (ha : pngAccept h = true) :
 #check @M4ri.Io.jcfLoop_die_of_zero
 #check @M4ri.Io.fromStr_spec
 #check @M4ri.Io.fromStr_shape
+
+
+/-! ### tie to the C text: `mzd_from_str` (fresh matrix, `mzd_write_bit` per character) = the model `fromStr` for every string, signed or unsigned
+    `char`; `mzd_set_ui` for every value (GenTieIo.lean) -/
+#check @M4ri.GenTieIo.mzdFromStr_eq
+#check @M4ri.GenTieIo.mzdFromStr_eq_string
+#check @M4ri.GenTieIo.mzdFromStr_eq_signed
+#check @M4ri.GenTieIo.mzdSetUi_eq
 
 end M4ri.Props.C18
